@@ -13,6 +13,10 @@ package main
 //     of a `return`, or sits in `if err := CALL; err != nil { …; return <non-nil> }` (or a naked return of the
 //     named error result), or is `_, err := CALL` directly followed by `return err`; "swallow" when the
 //     `err != nil` branch ends in `return nil` (the method then reports success and stops).
+//   - an *accepting* early return (`return nil`, `return validateExtensions(…)`, `return x.Validate(…)`) that is
+//     dominated by a flag literal L, at whatever nesting depth, ends the method when L holds: every call recorded
+//     textually after it (and not already under ¬L) gets the literal "¬L?" — "reached when ¬L; when L only on the
+//     structural paths that avoid the return" — which the model reads pessimistically as ¬L.
 // Plus one row per method with the set of option flags the method reads at all.
 // Everything the rules cannot read becomes an `unrecognised` row.
 
@@ -355,6 +359,24 @@ func extractDescent(repo string) (string, error) {
 			})
 
 			seenFlags := map[string]bool{}
+			var pendingSkips []string // flag literals under which an accepting return was met earlier in the text
+			acceptingReturn := func(r *ast.ReturnStmt) bool {
+				if len(r.Results) == 0 {
+					return false
+				}
+				switch x := r.Results[len(r.Results)-1].(type) {
+				case *ast.Ident:
+					return isNilIdent(x)
+				case *ast.CallExpr:
+					switch f := x.Fun.(type) {
+					case *ast.Ident:
+						return f.Name == "validateExtensions"
+					case *ast.SelectorExpr:
+						return f.Sel.Name == "Validate" || f.Sel.Name == "validate"
+					}
+				}
+				return false
+			}
 			var walkStmts func(list []ast.Stmt, guards []string)
 			var walkNode func(n ast.Node, guards []string)
 			record := func(call *ast.CallExpr, guards []string) {
@@ -407,6 +429,19 @@ func extractDescent(repo string) (string, error) {
 						return
 					}
 				}
+				for _, l := range pendingSkips {
+					has := func(y string) bool {
+						for _, x := range g {
+							if x == y {
+								return true
+							}
+						}
+						return false
+					}
+					if !has(neg(l)) && !has(neg(l)+"?") {
+						g = append(g, neg(l)+"?")
+					}
+				}
 				oe := callCtx[call]
 				if oe == "" {
 					unrec = append(unrec, where(call)+" (error of the call neither returned nor tested)")
@@ -445,6 +480,17 @@ func extractDescent(repo string) (string, error) {
 					walkNode(s.Fun, guards)
 				case *ast.FuncLit:
 					walkNode(s.Body, guards)
+				case *ast.ReturnStmt:
+					for _, r := range s.Results {
+						walkNode(r, guards)
+					}
+					if acceptingReturn(s) {
+						for _, l := range guards {
+							if strings.HasPrefix(l, "+") || strings.HasPrefix(l, "-") {
+								pendingSkips = append(pendingSkips, l)
+							}
+						}
+					}
 				default:
 					// generic traversal of direct children, keeping the guard set
 					ast.Inspect(n, func(c ast.Node) bool {
@@ -452,7 +498,7 @@ func extractDescent(repo string) (string, error) {
 							return true
 						}
 						switch c.(type) {
-						case *ast.BlockStmt, *ast.IfStmt, *ast.CallExpr, *ast.FuncLit:
+						case *ast.BlockStmt, *ast.IfStmt, *ast.CallExpr, *ast.FuncLit, *ast.ReturnStmt:
 							walkNode(c, guards)
 							return false
 						}
